@@ -342,4 +342,151 @@ Proof.
   rewrite Hs in H1, H2. repeat split; auto. rewrite <- Hs at 1. reflexivity.
 Qed.
 
+
+(* ---------- the invariant alone: no size hypothesis at all ---------- *)
+(* Clone / transpose re-validate the element count; when that check fails they panic and the
+   matrix is left as it was, so the invariant survives every step unconditionally *)
+Lemma from_flat_inv r c (vs : list T) s : from_flat_row_major (r, c) vs = Ok s -> s = mkM vs r c /\ Inv s.
+Proof.
+  intros H. destruct constructors_valid as [_ [_ [_ [_ Hc]]]]. specialize (Hc r c vs). now rewrite H in Hc.
+Qed.
+
+Lemma step_inv (s : matrix T) (o : op T) : Inv s -> Inv (fst (impl_step s o)).
+Proof.
+  intros Hinv. destruct (abs_of_inv s Hinv) as [Hr Hs]. set (m := abs s) in *. rewrite <- Hs.
+  assert (Hm : Inv (of_rows m)) by (rewrite Hs; exact Hinv).
+  assert (Hof : forall m', rect m' -> Inv (of_rows m')) by (intros m' H'; apply of_rows_abs; exact H').
+  destruct o.
+  - destruct (insert_row_refines m row v Hr) as [E R]. cbn [impl_step]. rewrite E. cbn [fst]. auto.
+  - destruct (insert_row_with_refines m row vs Hr) as [E R]. cbn [impl_step]. rewrite E. cbn [fst]. auto.
+  - destruct (insert_column_refines m column v Hr) as [E R]. cbn [impl_step]. rewrite E. cbn [fst]. auto.
+  - destruct (insert_column_with_refines m column vs Hr) as [E R]. cbn [impl_step]. rewrite E. cbn [fst]. auto.
+  - destruct (remove_row_refines m row Hr) as [E R]. cbn [impl_step]. rewrite E. cbn [fst]. auto.
+  - destruct (remove_column_refines m column Hr) as [E R]. cbn [impl_step]. rewrite E. cbn [fst]. auto.
+  - destruct (retain_mut_refines m s0 Hr) as [E R]. cbn [impl_step]. rewrite E. cbn [fst]. auto.
+  - cbn [impl_step]. unfold retain, mclone.
+    destruct (from_flat_row_major (m_rows (of_rows m), m_cols (of_rows m)) (m_data (of_rows m))) as [c|e|] eqn:Ec;
+      cbn [fst]; auto.
+    apply from_flat_inv in Ec as [Ec _].
+    replace c with (of_rows m) by (rewrite Ec; reflexivity).
+    destruct (retain_mut_refines m s0 Hr) as [E R]. rewrite E.
+    destruct (snd (spec_step m (ORetainMut s0))); cbn [fst]; auto.
+  - cbn [impl_step]. unfold transpose.
+    destruct (sequence _) as [data|]; cbn [fst]; auto.
+    destruct (from_flat_row_major _ data) as [t|e|] eqn:Et; cbn [fst]; auto.
+    destruct (m_cols (of_rows m), m_rows (of_rows m)) as [a b] eqn:Eab. now apply from_flat_inv in Et as [_ Et].
+  - cbn [impl_step]. unfold transpose_mut.
+    destruct (negb (m_rows (of_rows m) =? m_cols (of_rows m))) eqn:Esq.
+    + unfold transpose. destruct (sequence _) as [data|]; cbn [fst]; auto.
+      destruct (from_flat_row_major _ data) as [t|e|] eqn:Et; cbn [fst]; auto.
+      destruct (m_cols (of_rows m), m_rows (of_rows m)) as [a b] eqn:Eab. now apply from_flat_inv in Et as [_ Et].
+    + apply negb_false_iff, N.eqb_eq in Esq. cbn [of_rows m_rows m_cols] in Esq. unfold nlen in Esq.
+      change (m_rows (of_rows m)) with (nlen m). change (m_cols (of_rows m)) with (N.of_nat (ncols m)).
+      rewrite (transpose_mut_square m Hr) by lia. cbn [fst]. apply Hof, (rect_transpose m Hr).
+  - destruct (set_refines m row column v Hr) as [E R]. rewrite E. cbn [fst]. auto.
+  - destruct (map_mut_refines m f Hr) as [E R]. rewrite E. cbn [fst]. auto.
+  - destruct (map_mut_with_index_refines m f Hr) as [E R]. rewrite E. cbn [fst]. auto.
+Qed.
+
+Theorem trace_inv (ops : list (op T)) : forall s : matrix T, Inv s ->
+  Forall (fun r => Inv (fst r)) (impl_trace s ops).
+Proof.
+  induction ops as [|o ops IH]; intros s Hinv; [constructor|].
+  cbn [impl_trace]. pose proof (step_inv s o Hinv) as H. constructor; [exact H|apply IH; exact H].
+Qed.
+
+Theorem run_inv (ops : list (op T)) : forall s : matrix T, Inv s -> Inv (impl_run s ops).
+Proof.
+  induction ops as [|o ops IH]; intros s Hinv; [exact Hinv|].
+  cbn [impl_run fold_left]. apply IH, step_inv, Hinv.
+Qed.
+
+(* ---------- when does `all_fit` hold? ---------- *)
+(* operations that never increase the element count: everything except the four insertions *)
+Definition non_growing (o : op T) : bool :=
+  match o with
+  | OInsertRow _ _ | OInsertRowWith _ _ | OInsertColumn _ _ | OInsertColumnWith _ _ => false
+  | _ => true
+  end.
+
+Lemma length_concat_le_map (f : list T -> list T) m :
+  (forall row, length (f row) <= length row)%nat -> (length (concat (map f m)) <= length (concat m))%nat.
+Proof.
+  intros Hf. induction m as [|row m IH]; [cbn; lia|]. cbn [map concat]. rewrite !app_length.
+  specialize (Hf row). lia.
+Qed.
+
+Lemma length_keep_from_le {A} g (l : list A) : forall k, (length (keep_from g k l) <= length l)%nat.
+Proof. induction l as [|x l IH]; intros k; cbn; [lia|]. specialize (IH (k + 1)). destruct (g k); cbn; lia. Qed.
+
+Lemma length_concat_keep_from_le g m : forall k, (length (concat (keep_from g k m)) <= length (concat m))%nat.
+Proof.
+  induction m as [|row m IH]; intros k; cbn [keep_from concat]; [lia|]. specialize (IH (k + 1)).
+  destruct (g k); cbn [concat]; rewrite ?app_length; lia.
+Qed.
+
+Lemma length_remove_at_le {A} (l : list A) : forall k, (length (remove_at k l) <= length l)%nat.
+Proof. induction l as [|x l IH]; intros [|k]; cbn; try lia. specialize (IH k). lia. Qed.
+
+Lemma length_concat_remove_at_le m : forall k, (length (concat (remove_at k m)) <= length (concat m))%nat.
+Proof.
+  induction m as [|row m IH]; intros [|k]; cbn [remove_at concat]; rewrite ?app_length; try lia.
+  specialize (IH k). lia.
+Qed.
+
+Lemma non_growing_count m (o : op T) : rect m -> non_growing o = true ->
+  (length (concat (fst (spec_step m o))) <= length (concat m))%nat.
+Proof.
+  intros Hr Hng. destruct o; try discriminate; unfold spec_step;
+    repeat match goal with
+    | |- context [if ?b then _ else _] => destruct b
+    end; cbn [fst]; try lia.
+  - apply length_concat_remove_at_le.
+  - apply length_concat_le_map. intros; apply length_remove_at_le.
+  - unfold spec_retain. etransitivity; [apply length_concat_le_map; intros; apply length_keep_from_le|].
+    apply length_concat_keep_from_le.
+  - unfold spec_retain. etransitivity; [apply length_concat_le_map; intros; apply length_keep_from_le|].
+    apply length_concat_keep_from_le.
+  - destruct (rect_transpose m Hr) as [Hr' [Hn' [Hl' Hall']]].
+    rewrite (length_concat_uniform _ _ Hall'), (length_concat_uniform _ _ (rect_forall m Hr)), Hl'. lia.
+  - destruct (rect_transpose m Hr) as [Hr' [Hn' [Hl' Hall']]].
+    rewrite (length_concat_uniform _ _ Hall'), (length_concat_uniform _ _ (rect_forall m Hr)), Hl'. lia.
+  - pose proof (rect_forall m Hr) as Hall.
+    rewrite (length_concat_uniform _ (ncols m)), (length_concat_uniform _ _ Hall), length_update_at; [lia|].
+    apply Forall_update_at; [exact Hall|]. intros r0 H0. now rewrite length_update_at.
+  - rewrite <- concat_map, map_length. lia.
+  - pose proof (rect_forall m Hr) as Hall.
+    rewrite (length_concat_uniform _ (ncols m)), (length_concat_uniform _ _ Hall), length_mapi_from; [lia|].
+    apply (Forall_mapi_from (fun r0 => length r0 = ncols m)); [exact Hall|].
+    intros k r0 H0. now rewrite length_mapi_from.
+Qed.
+
+(* a history without insertions, started from a matrix whose storage fits a usize (every
+   allocated Vec), satisfies `all_fit`: the size hypothesis of the refinement theorems only
+   matters for histories that GROW a matrix towards usize::MAX elements *)
+Theorem all_fit_non_growing (ops : list (op T)) : forall m, rect m -> fits m ->
+  forallb non_growing ops = true -> all_fit m ops.
+Proof.
+  induction ops as [|o ops IH]; intros m Hr Hf Hng; [exact I|].
+  cbn [forallb] in Hng. apply andb_true_iff in Hng as [Ho Hrest].
+  split; [exact Hf|]. destruct (step_refines m o Hr Hf) as [_ Hr'].
+  apply IH; auto. unfold fits, nlen in *. pose proof (non_growing_count m o Hr Ho). lia.
+Qed.
+
+Theorem all_fit_of_allocated (s : matrix T) (ops : list (op T)) : Inv s ->
+  nlen (m_data s) <= usize_max -> forallb non_growing ops = true -> all_fit (abs s) ops.
+Proof.
+  intros Hinv Hlen Hng. destruct (abs_of_inv s Hinv) as [Hr Hs]. apply all_fit_non_growing; auto.
+  unfold fits. replace (concat (abs s)) with (m_data s); [exact Hlen|]. rewrite <- Hs at 1. reflexivity.
+Qed.
+
+(* in general: it is enough that the element count stays within usize before every step *)
+Lemma all_fit_bound (ops : list (op T)) : forall m bound, bound <= usize_max ->
+  (forall k, (k <= length ops)%nat -> nlen (concat (spec_run m (firstn k ops))) <= bound) -> all_fit m ops.
+Proof.
+  induction ops as [|o ops IH]; intros m bound Hb H; [exact I|]. split.
+  - unfold fits. specialize (H 0%nat ltac:(cbn; lia)). cbn in H. lia.
+  - apply (IH _ bound Hb). intros k Hk. specialize (H (S k) ltac:(cbn; lia)). exact H.
+Qed.
+
 End History.
